@@ -84,10 +84,10 @@ class Probe:
                 for a_ in acts:
                     if a_[0] == 0:
                         env.trace.append(['s', a_[1], a_[2]])
-                        env.bus.subscribe(CHN[a_[1]], env.probe(a_[1], a_[2]), a_[3])
+                        env.sub(a_[1], a_[2], a_[3])
                     elif a_[0] == 1:
                         env.trace.append(['u', a_[1], a_[2]])
-                        env.bus.unsubscribe(CHN[a_[1]], env.probe(a_[1], a_[2]))
+                        env.unsub(a_[1], a_[2])
                     else:
                         env.bus.publish(CHN[a_[1]])
                 if fin[0] == 1:
@@ -123,6 +123,7 @@ class Env:
         self.trace = []
         self.journal = []
         self.probes = {}
+        self.want = {}          # the harness's own record of the subscribe/unsubscribe calls made: (ch, lid) -> priority
         st = wspbus.states
         self.stmap = {id(getattr(st, n)): i for i, n in enumerate(STN)}
 
@@ -144,6 +145,23 @@ class Env:
                 n += 1
             f = f.f_back
         return n
+
+    def sub(self, ch, lid, prio):
+        r = self.bus.subscribe(CHN[ch], self.probe(ch, lid), prio)
+        self.want[(ch, lid)] = 50 if prio is None else prio       # Probe has no .priority attribute: default 50
+        return r
+
+    def unsub(self, ch, lid):
+        r = self.bus.unsubscribe(CHN[ch], self.probe(ch, lid))
+        self.want.pop((ch, lid), None)
+        return r
+
+    def subscribed(self):
+        """what the calls made so far say is subscribed, independent of the bus's own tables (which subs() reads)"""
+        out = {}
+        for (ch, lid), p in sorted(self.want.items()):
+            out.setdefault(ch, []).append([lid, p])
+        return out
 
     def subs(self):
         out = {}
@@ -385,10 +403,10 @@ class C18(core.Check):
         env = Env(w, c)
         bus = env.bus
         for ch, i, p in c['subs']:
-            bus.subscribe(CHN[ch], env.probe(ch, i), p)
+            env.sub(ch, i, p)
         results, percall = [], []
         for k in c['calls']:
-            pre = env.subs()
+            pre = env.subscribed()
             st0 = env.state()
             t0 = len(env.trace)
             payload = []
@@ -409,9 +427,9 @@ class C18(core.Check):
                     payload = list(r)
                     r = None
                 elif k[0] == 6:
-                    r = bus.subscribe(CHN[k[1]], env.probe(k[1], k[2]), k[3])
+                    r = env.sub(k[1], k[2], k[3])
                 elif k[0] == 7:
-                    r = bus.unsubscribe(CHN[k[1]], env.probe(k[1], k[2]))
+                    r = env.unsub(k[1], k[2])
                 kind = 0
                 if r is not None:
                     kind, payload = 8, [repr(r)]
